@@ -10,8 +10,8 @@ def run(tier, seed, jobs):
         configs = [dict(eager=False, salt=1, env_budget=1, cuts="sparse", horizon=2000000)]
         cap = 250
     else:
-        configs = [dict(eager=False, salt=1, env_budget=2, cuts="all", horizon=2000000)]
-        cap = 500
+        configs = [dict(eager=False, salt=1, env_budget=2, cuts="sparse", horizon=2000000)]
+        cap = 1000
     cov, viol, harness = run_family(FAMILY, tier, configs, jobs, max_execs=cap, seed=seed)
     cov["max_deviations"] = configs[0]["env_budget"]
     cov["cut_points"] = configs[0]["cuts"]
